@@ -36,7 +36,7 @@ PROPS = {
         technique="property-based testing: exhaustive small-domain enumeration of the escrow keeper (all deposits/rates/gaps/trigger schedules) + rapid state machine over the real app; trigger-independent accrual invariants recomputed from recorded heights",
         level_text="Keeper level: all small deposits, 1-3 payments with small rates and creation offsets, and all subsets of settlement trigger points/kinds are enumerated exhaustively against closed-form accrual invariants. App level: histories with several concurrent leases per deployment check exact accrual (never-overdrawn accounts), the never-more-than-rate-x-blocks bound, transferred = credited, balance+transferred = deposits, and the overdraft distribution validity predicate.",
         level_note="Trusted: cosmos-sdk Int arithmetic; the keeper-level ledger bank is a harness stub; enumeration bounds are stated in the evidence.",
-        extra_units=[{"pkg": "x/escrow/keeper", "run": "^TestVerif_C02_Enum$", "checks": 1, "norapid": True, "shards": {Q: 1, T: 16}, "timeout": {Q: 600, T: 3000},
+        extra_units=[{"pkg": "x/escrow/keeper", "run": "^TestVerif_C02_Enum$", "checks": 1, "norapid": True, "shards": {Q: 1, T: 16}, "timeout": {Q: 600, T: 7200},
                       "env": {"VERIF_C02_SHARDS": {Q: 1, T: 16}}}]),
     "C03": chain("C03", 60, 1500, replay="C03", floor=0.3,
         technique="property-based testing: rapid state machine over the real app, escrow record invariants + chain's own ValidateGenesis as oracle + close-takes-effect postconditions",
@@ -127,6 +127,7 @@ PROPS = {
         "assumptions": ["ECDSA P-256 certificates; TLS 1.3"],
         "units": [
             {"pkg": "provider/gateway/rest", "run": "^TestVerif_C09_Replay$", "checks": 1, "timeout": 300},
+            {"pkg": "provider/gateway/rest", "run": "^TestVerif_C09_Overlap$", "checks": {Q: 300, T: 6000}, "shards": {Q: 2, T: 16}, "race": {Q: False, T: True}, "timeout": {Q: 600, T: 3000}, "shrinktime": "30s"},
             {"pkg": "provider/gateway/rest", "run": "^TestVerif_C09_Verify$", "checks": {Q: 400, T: 8000}, "shards": {Q: 2, T: 16}, "timeout": {Q: 600, T: 3000}, "shrinktime": "30s"},
             {"pkg": "provider/gateway/rest", "run": "^TestVerif_C09_Handshake$", "checks": {Q: 150, T: 2000}, "shards": {Q: 2, T: 16}, "timeout": {Q: 600, T: 3000}, "shrinktime": "30s"},
         ],
@@ -146,7 +147,8 @@ PROPS = {
         "level_text": "A real order monitor (newOrderInternal) runs over a real bus while the harness gates group fetch, existing-bid query, auditor lookup, Reserve, pricing, create-bid and close-bid broadcasts and Unreserve. Generated schedules complete steps (ok or failing), publish order-closed / lease-created events for this and other orders/providers/groups, shut the parent down or let a bid timeout fire, in particular while steps are in flight, and finally complete whatever is still in flight. Over the call log: at most one create-bid, never above the group's maximum price, only after a successful reservation; unless the lease was won every successful reservation is followed by an Unreserve and an existing bid by a close-bid; the monitor always terminates.",
         "level_note": "Trusted: when two channels are ready at once the Go runtime's select picks - both outcomes are legal schedules and the oracle is schedule independent; bounded waits (20 s) only detect wedging.",
         "assumptions": ["single failure injection per step; Unreserve/close-bid calls count as released/closed even if the call itself fails"],
-        "units": [{"pkg": "provider/bidengine", "run": "^TestVerif_C13$", "checks": {Q: 300, T: 5000}, "shards": {Q: 4, T: 16}, "race": {Q: False, T: True}, "timeout": {Q: 600, T: 3000}, "shrinktime": "30s"}],
+        "units": [{"pkg": "provider/bidengine", "run": "^TestVerif_C13_Replay$", "checks": 1, "timeout": 300},
+                  {"pkg": "provider/bidengine", "run": "^TestVerif_C13$", "checks": {Q: 300, T: 5000}, "shards": {Q: 4, T: 16}, "race": {Q: False, T: True}, "timeout": {Q: 600, T: 3000}, "shrinktime": "30s"}],
     },
     "C14": {
         "level": "fault_enumeration", "floor": 0.4,
